@@ -314,6 +314,75 @@ def witness_search(fn_paths, seed_expr, limit=40000, extra=()):
     return None
 
 
+WITNESS = """#include <librfn/rand.h>
+uint32_t w_rand31_r(uint32_t *seedp) { return rand31_r(seedp); }
+uint32_t w_once(uint32_t *(*cur)(void)) { return rand31_r(cur()); }
+"""
+
+NEG = {"ugt": "ule", "ule": "ugt", "uge": "ult", "ult": "uge", "sgt": "sle", "sle": "sgt", "sge": "slt", "slt": "sge", "eq": "ne", "ne": "eq"}
+
+
+def apply_conds(it, p, cands):
+    """Refine the interpreter's intervals by the path's comparisons against constants, in order.  Returns False when a
+    comparison cannot hold for any valid state (the path is infeasible in the property's scope)."""
+    for c, taken, inst in p.conds:
+        cc = strip_casts(c)
+        if not (cc[0] == "icmp" and cc[3][0] == "c"):
+            continue
+        cst = cc[3][2]
+        pred = cc[1] if taken else NEG[cc[1]]
+        try:
+            cur = it.ev(cc[2])
+            lo_, hi_ = cur.lo, cur.hi
+        except Top:
+            lo_, hi_ = it.refine.get(cc[2], (0, 1 << 64))
+        if pred in ("ugt", "sgt"):
+            lo_ = max(lo_, cst + 1)
+        elif pred in ("uge", "sge"):
+            lo_ = max(lo_, cst)
+        elif pred in ("ule", "sle"):
+            hi_ = min(hi_, cst)
+        elif pred in ("ult", "slt"):
+            hi_ = min(hi_, cst - 1)
+        elif pred == "eq":
+            lo_, hi_ = max(lo_, cst), min(hi_, cst)
+        if lo_ > hi_:
+            return False
+        it.refine[cc[2]] = (lo_, hi_)
+        # a bound on (x >> k) is a bound on x
+        inner = strip_casts(cc[2])
+        if inner[0] == "b" and inner[1] == "lshr" and inner[4][0] == "c":
+            k = inner[4][2]
+            a0, b0 = it.refine.get(inner[3], (0, 1 << 64))
+            it.refine[inner[3]] = (max(a0, lo_ << k), min(b0, ((hi_ + 1) << k) - 1 if hi_ < (1 << 40) else b0))
+        for b_ in (lo_, hi_, lo_ << 17, ((hi_ + 1) << 17) - 1 if hi_ < (1 << 20) else 0):
+            for d_ in (-2, -1, 0, 1, 2):
+                if 1 <= b_ + d_ <= P - 1:
+                    cands.add(b_ + d_)
+    return True
+
+
+def check_single_evaluation(chk, m):
+    """rand31_r(<expression>) evaluates its argument exactly once, and reads and writes the state through that one value:
+    a function does so by construction; a macro may not, and would then advance one generator from another's state."""
+    fn = m.fn("w_once")
+    try:
+        ps = [p for p in paths.enumerate_paths(fn, m, loop_bound=2) if not paths.is_assert_fail_path(p)]
+    except AnalysisError as e:
+        chk.unknown("M5.single-evaluation", "rand31_r(cur())", str(e))
+        return
+    for p in ps:
+        pid = "rand31_r(cur()) path " + "->".join(b.lstrip("%") for b in p.blocks)
+        calls = [e for e in p.events if e.kind == "call" and not isinstance(e.callee, str)]
+        cells = set(e.ptr for e in p.events if e.kind in ("load", "store"))
+        ok = len(calls) == 1 and cells == {calls[0].res}
+        chk.ob("M5.single-evaluation", pid, ok,
+               "the argument expression is evaluated once and the state is read and written through that value" if ok else
+               "the argument expression is evaluated %d times (state cells touched: %d): with rand31_r(next_generator()) the "
+               "state is read from one generator and written to another" % (len(calls), len(cells)), p.ret_inst.loc, fn.name)
+    chk.expect("M5", "paths of the single-evaluation witness", len(ps), 1)
+
+
 def run(chk):
     chk.level = "proof"
     chk.explanation = (
@@ -331,11 +400,27 @@ def run(chk):
                         "valid states only: seed in [1, 2^31-2] (the property's scope)"]
     chk.trusted_base += ["sa/rules/C17.py abstract transfer functions (Interval x linear form, quotient/remainder atoms)"]
     chk.ob("M3.lemma", "p prime", is_prime(P) and A % P != 0, "2^31-1 = %d is prime (trial division) and does not divide 16807" % P)
-    m = build.load_unit("librfn/rand.c")
+    # the generator as a caller sees it: whatever rand.h makes of the name rand31_r (a function of rand.c, a static inline
+    # or a macro over helpers of rand.c), with every piece inlined into the witness
+    m = build.api_view("c17_api.c", WITNESS, ["librfn/rand.c"], ["w_rand31_r", "w_once"])
     chk.note_unit(m)
-    fn = m.fn("rand31_r")
+    fn = m.fn("w_rand31_r")
     chk.note_fn(fn)
-    ps = [p for p in paths.enumerate_paths(fn, m) if not paths.is_assert_fail_path(p)]
+    check_single_evaluation(chk, m)
+    dropped = []
+    try:
+        ps = paths.enumerate_paths(fn, m)
+    except AnalysisError as e:
+        if "loop" not in str(e):
+            raise
+        # a loop in the generator: unroll twice and discharge the truncation by showing that, for valid states, no path goes
+        # round a third time
+        ps = paths.enumerate_paths(fn, m, loop_bound=2, dropped=dropped)
+    ps = [p for p in ps if not paths.is_assert_fail_path(p)]
+    for p in ps:
+        # report at the library's own source line (the state update), not at the generated witness
+        st = [e for e in p.events if e.kind == "store" and e.ptr == ("arg", 0)]
+        p.where = st[-1].inst.loc if st else p.ret_inst.loc
     seed_exprs = set()
     for p in ps:
         for e in p.events:
@@ -349,56 +434,49 @@ def run(chk):
     seed = list(seed_exprs)[0]
     failed = []
     extra_cands = set()
+    for d in dropped:
+        it = Interp(seed)
+        try:
+            feas = apply_conds(it, d, extra_cands)
+        except Top as t:
+            feas = True
+        if feas:
+            chk.unknown("M1.loop", "rand31_r", "a loop in the generator may run more than twice for a valid state (condition at %s); "
+                        "the straight-line arithmetic rules do not cover it" % d.conds[-1][2].loc, d.conds[-1][2].loc)
+            return
+    if dropped:
+        chk.ob("M1.loop", "rand31_r", True, "the loop(s) in the generator run at most twice for every valid state: all %d longer path "
+               "prefixes are infeasible for seeds in [1, p-1]" % len(dropped), dropped[0].conds[-1][2].loc, fn.name)
     for p in ps:
         pid = "path " + "->".join(b.lstrip("%") for b in p.blocks)
         it = Interp(seed)
-        for c, taken, inst in p.conds:
-            cc = strip_casts(c)
-            if cc[0] == "icmp" and cc[3][0] == "c":
-                cst = cc[3][2]
-                pred = cc[1] if taken else {"ugt": "ule", "ule": "ugt", "uge": "ult", "ult": "uge",
-                                            "sgt": "sle", "sle": "sgt", "sge": "slt", "slt": "sge", "eq": "ne", "ne": "eq"}[cc[1]]
-                lo_, hi_ = it.refine.get(cc[2], (0, 1 << 64))
-                if pred in ("ugt", "sgt"):
-                    lo_ = max(lo_, cst + 1)
-                elif pred in ("uge", "sge"):
-                    lo_ = max(lo_, cst)
-                elif pred in ("ule", "sle"):
-                    hi_ = min(hi_, cst)
-                elif pred in ("ult", "slt"):
-                    hi_ = min(hi_, cst - 1)
-                it.refine[cc[2]] = (lo_, hi_)
-                # a bound on (x >> k) is a bound on x
-                inner = strip_casts(cc[2])
-                if inner[0] == "b" and inner[1] == "lshr" and inner[4][0] == "c":
-                    k = inner[4][2]
-                    a0, b0 = it.refine.get(inner[3], (0, 1 << 64))
-                    it.refine[inner[3]] = (max(a0, lo_ << k), min(b0, ((hi_ + 1) << k) - 1 if hi_ < (1 << 40) else b0))
-                for b_ in (lo_, hi_, lo_ << 17, ((hi_ + 1) << 17) - 1 if hi_ < (1 << 20) else 0):
-                    for d_ in (-2, -1, 0, 1, 2):
-                        if 1 <= b_ + d_ <= P - 1:
-                            extra_cands.add(b_ + d_)
+        try:
+            if not apply_conds(it, p, extra_cands):
+                continue                # no valid state takes this path
+        except Top as t:
+            failed.append((pid, "M1.no-wrap", str(t), p))
+            continue
         try:
             v = it.ev(p.ret)
         except Top as t:
             failed.append((pid, "M1.no-wrap" if it.wraps else "M2.congruence", str(t), p))
             continue
         chk.ob("M1.no-wrap", pid, True, "all %d arithmetic nodes stay within their width; result range [%d, %d]" %
-               (sum(1 for _ in paths.subexprs(p.ret)), v.lo, v.hi), p.ret_inst.loc, fn.name)
+               (sum(1 for _ in paths.subexprs(p.ret)), v.lo, v.hi), p.where, fn.name)
         lo, hi = it.bound(v)
         ok_c = it.congruent(v.lin, {"s": A})
         if ok_c:
             chk.ob("M2.congruence", pid, True, "result == 16807*s (mod p) using %d quotient/remainder relations" % len(it.relations),
-                   p.ret_inst.loc, fn.name)
+                   p.where, fn.name)
         else:
             failed.append((pid, "M2.congruence", "result is not congruent to 16807*s modulo p", p))
         if 0 <= lo and hi <= P:
-            chk.ob("M3.range", pid, True, "result in [%d, %d] within [0, p]" % (lo, hi), p.ret_inst.loc, fn.name)
+            chk.ob("M3.range", pid, True, "result in [%d, %d] within [0, p]" % (lo, hi), p.where, fn.name)
         else:
             failed.append((pid, "M3.range", "result range [%d, %d] is not inside [0, %d]" % (lo, hi, P), p))
         st = [e for e in p.events if e.kind == "store" and e.ptr == ("arg", 0)]
         chk.ob("M4.state", pid, len(st) == 1 and st[0].val == p.ret,
-               "the new state stored to *seedp is the returned value", (st[0].inst.loc if st else p.ret_inst.loc), fn.name)
+               "the new state stored to *seedp is the returned value", (st[0].inst.loc if st else p.where), fn.name)
     if failed:
         for p_ in ps:
             for c_, t_, i_ in p_.conds:
@@ -417,7 +495,7 @@ def run(chk):
             if w is not None:
                 s, got, want = w
                 chk.ob(rule, pid, False, "%s; witness: seed %d returns %d, Park-Miller gives %d" % (why, s, got, want),
-                       p.ret_inst.loc, fn.name)
+                       p.where, fn.name)
             else:
-                chk.unknown(rule, pid, why + " (no witness found among boundary residues)", p.ret_inst.loc)
+                chk.unknown(rule, pid, why + " (no witness found among boundary residues)", p.where)
     chk.expect("M2", "paths of rand31_r", len(ps), 1)
